@@ -8,4 +8,6 @@ BigIds == {Pid(p[1], p[2]) : p \in {q \in Pkts : big[q]}}
 Export == AllDone => PrintT("BEH " \o ToJson([orders |-> order, big |-> SetToSeq(BigIds), t |-> T, p |-> P]))
 \* at the end nothing is held, every pooled block is back
 Clean == AllDone => (DOMAIN hold = {} /\ jst.live = <<>>)
+\* the property is not vacuous (constant-level, checked once)
+ASSUME PNotVacuous
 =============================================================================
